@@ -1,5 +1,5 @@
 (* Witness executions (evaluated with the executable SHA-256) on which the faithful model violates
-   the full statements; each is replayed on the real store by harness/c02 (directed scripts). *)
+   the full statements (2, 3), and the regression witness of a fixed one (1); each is replayed on the real store by harness/c02 (directed scripts). *)
 From V Require Import Hist.Machine Hist.Lemmas Hist.Aht Merkle.Sha256.
 Open Scope N_scope.
 
@@ -13,11 +13,11 @@ Definition wtx (k v ts : N) : txspec :=
   {| p_entries := [{| k_key := [k]; k_md := []; k_val := [v] |}]; p_md := None; p_ts := ts;
      p_precond := None; p_cancel := false |}.
 (* one commit call of client c: value write + critical section *)
-Definition wpre (c k v ts : N) : list op := [OBegin c (wtx k v ts) None false; OLocked c zeros32].
+Definition wpre (c k v ts : N) : list op := [OBegin c (wtx k v ts) None false; OLocked c].
 
-(* (1) Discard + Precommit + reopen: the discarded tx A is reloaded from the tx log as tx 3 while the
-   AHT keeps the leaf of its replacement B; tx 4 then embeds a root that is NOT the root over the
-   Alh of txs 1..3. *)
+(* (1) [FIXED by 2077e08] Discard + Precommit + reopen: the discarded tx A is reloaded from the tx log
+   as tx 3; OpenWith now resets the binary-linking tree to the committed transactions and rebuilds it
+   from the reloaded ones, so tx 4 embeds the root over the Alh of txs 1..3 (regression witness). *)
 Definition w1_ops : list op :=
   (wpre 0 1 11 1001 ++ wpre 1 2 12 1002 ++ [OAllow 2] ++ wpre 0 65 13 1003 ++ [ODiscard 3] ++
    wpre 1 66 14 1004 ++ [OReopen; OAllow 3] ++ wpre 0 4 15 1005 ++ [OAllow 4])%list.
@@ -29,11 +29,9 @@ Definition blroot_ok (s : state) (k : N) : bool :=
   | _ => false
   end.
 
-Lemma blroot_refuted_witness :
+Lemma blroot_fixed_witness :
   let s := run Hs (init Hs (wcfg false true)) w1_ops in
-  s_committed s = 4 /\ blroot_ok s 1 = true /\ blroot_ok s 2 = true /\ blroot_ok s 3 = true /\
-  blroot_ok s 4 = false /\
-  (* tx 3 is the DISCARDED transaction (key 65), not its replacement (key 66) *)
+  s_committed s = 4 /\ forallb (blroot_ok s) [1; 2; 3; 4] = true /\
   match read_tx s 3 with Ok r => map e_key (r_entries r) = [[65]] | _ => False end.
 Proof. vm_compute. repeat split; reflexivity. Qed.
 
